@@ -239,6 +239,10 @@ class Model:
             return AXIS_SIZES[axis]
         return self.spec["sizes"][axis]
 
+    def key(self):
+        live = set(self.roots()) | set(self.outputs())
+        return json.dumps([sorted((k, v) for k, v in self.M.items() if k in live), self.axes, sorted(sorted(g) for g in self.groups)])
+
     def feats(self):
         nested = [g for g in self.groups if len(g) > 1]
         return {
@@ -802,12 +806,12 @@ def behaviour(p, m):
 
 
 def mutate(p):
-    """three later mutations of one object (best effort; their own effect is other properties' business); -> number applied"""
+    """later mutations of one object: a new default and a new name for EVERY root argument, a bound value on one parameter
+    of EVERY function (best effort; their own effect is other properties' business); -> number applied"""
     n = 0
     roots = sorted(_quiet(lambda: p.topological_generations.root_args))
     if roots:
-        r = roots[0]
-        for fn, arg in ((p.update_defaults, {r: "DM"}), (p.update_renames, {r: "mut_" + r.replace(".", "_")})):
+        for fn, arg in ((p.update_defaults, {r: "DM" for r in roots}), (p.update_renames, {r: "mut_" + r.replace(".", "_") for r in roots})):
             try:
                 _quiet(fn, arg)
                 n += 1
@@ -818,11 +822,10 @@ def mutate(p):
         cand = [a for a in f.parameters if a not in f._bound and a not in ms_in and a not in f._defaults]
         if cand:
             try:
-                _quiet(f.update_bound, {cand[0]: "BM"})
+                _quiet(f.update_bound, {cand[-1]: "BM"})
                 n += 1
             except Exception:  # noqa: BLE001, S110
                 pass
-            break
     return n
 
 
@@ -846,7 +849,7 @@ def run_history(base, hist, state_oracle=True, info=None):  # noqa: C901, PLR091
     traces = 0
     if not hist:
         p, m = build(base, [])
-        info["canon"] = canon(p)
+        info["canon"] = canon(p) + " | " + m.key()
         if state_oracle:
             r, n = check_state(p, m, "base")
             res += r
@@ -874,7 +877,7 @@ def run_history(base, hist, state_oracle=True, info=None):  # noqa: C901, PLR091
         info["traces"] = traces
         return [(sig, f"{where} raised {type(e).__name__}: {str(e)[:140]}")]
     apply_model(m, op, q)
-    info["canon"] = canon(q)
+    info["canon"] = canon(q) + " | " + m.key()  # merged only when the real state AND the model's prediction coincide
     info["model"] = m
     if callable(state_oracle):
         state_oracle = state_oracle(info["canon"])
@@ -931,7 +934,7 @@ def run_case(case):
 # ------------------------------------------------------------------------------------------------
 def bfs(base, depth, tier, chunk, nchunks, acc):  # noqa: C901
     p0, m0 = build(base, [])
-    root = canon(p0)
+    root = canon(p0) + " | " + m0.key()
     seen = {root}
     if chunk == 0:
         acc.states += 1
@@ -1001,11 +1004,15 @@ def plan(tier, seed):
         for n, b in gdag_bases(3):
             if n <= 2:
                 stages.append(("gdag-n<=2-depth3", [(b, 3, c, 4) for c in range(4)]))
+        for n, b in decorated_bases(2):
+            if not b["spec"]["deco"].startswith("rename"):  # renames are an operation of the alphabet already
+                stages.append(("decorated-n<=2-depth2", [(b, 2, 0, 1)]))
         for n, b in gdag_bases(3):
             if n == 3:
-                stages.append(("gdag-n3-depth2", [(b, 2, 0, 1)]))
-        for n, b in decorated_bases(2):
-            stages.append(("decorated-n<=2-depth2", [(b, 2, 0, 1)]))
+                stages.append(("gdag-n3-depth1", [(b, 1, 0, 1)]))
+        for n, b in gdag_bases(3):
+            if n == 3 and all(len(f["outs"]) == 1 for f in b["spec"]["funcs"]):
+                stages.append(("gdag-n3-single-output-depth2", [(b, 2, 0, 1)]))
     by = collections.OrderedDict()
     for st, us in stages:
         by.setdefault(st, []).extend((st, (tier, *u)) for u in us)
